@@ -38,6 +38,7 @@ type acCase struct {
 	invalid  string
 	refs     []acRef
 	inlineOK bool // inline contents match their digests
+	big      bool // three or four output files of 1.5 MiB each
 	trees    []*world.Blob
 	via      int // 0 gRPC, 1 HTTP proto, 2 HTTP JSON, 3 HTTP proto+zstd
 }
@@ -154,8 +155,24 @@ func acScen(c *Ctx) {
 		if nf == 4 {
 			nf = 21 + r.Intn(5) // crosses the internal batch of 20
 		}
+		// Sometimes the referenced outputs are large enough for the inlining
+		// budget to matter: the hit must still fit one default gRPC message.
+		cs.big = r.Chance(1, 10)
+		if cs.big {
+			nf = 3 + r.Intn(2)
+		}
 		for j := 0; j < nf; j++ {
 			of := &pb.OutputFile{Path: fmt.Sprintf("out/f%d", j), IsExecutable: r.Chance(1, 4)}
+			if cs.big {
+				seq++
+				b := world.Make(world.BlobID{Kind: 0, Seed: 9000 + seq, Size: 1<<20 + 1<<19 + int64(j)})
+				toStore = append(toStore, b)
+				ref := acRef{d: world.Digest(b.Hash, b.Size()), blob: b, state: 0, what: of.Path}
+				of.Digest = ref.d
+				cs.refs = append(cs.refs, ref)
+				ar.OutputFiles = append(ar.OutputFiles, of)
+				continue
+			}
 			if r.Chance(1, 4) {
 				b := newBlob()
 				of.Digest, of.Contents = world.Digest(b.Hash, b.Size()), b.Data
@@ -389,14 +406,21 @@ func acScen(c *Ctx) {
 			}
 			before := world.Observe(n)
 			in := world.InlineReq{Stdout: r.Chance(1, 2), Stderr: r.Chance(1, 2)}
-			if r.Chance(1, 2) {
+			if r.Chance(1, 2) || cs.big {
 				for _, f := range cs.ar.OutputFiles {
-					if r.Chance(1, 2) {
+					if r.Chance(1, 2) || cs.big {
 						in.Files = append(in.Files, f.Path)
 					}
 				}
 			}
 			gr, got := cl.GetAR(cs.instance, cs.key, in)
+			if gr.OK && got != nil {
+				// gRPC's default limit for a received message (what a client
+				// that configured nothing can take): 4 MiB
+				if n := proto.Size(got); n > 4<<20 {
+					s.Violate("C11.inline-budget", "GetActionResult", "hit of %d bytes (inlined contents included) does not fit a default gRPC message of 4 MiB", n)
+				}
+			}
 			hp := "/ac/" + cs.key
 			if cs.instance != "" {
 				hp = "/" + cs.instance + hp
